@@ -189,5 +189,8 @@ pub fn graph_digest(m: &Melda, stems: &[String]) -> String {
     }
     shape.sort();
     let heads: Vec<u32> = m.get_anchors().iter().map(|a| a.index()).collect();
+    if std::env::var("VERIF_DEBUG_GRAPH").is_ok() {
+        eprintln!("GRAPH heads {:?} shape {:?}", heads, shape);
+    }
     sha(format!("{:?}|{:?}", heads, shape).as_bytes())[..16].to_string()
 }
